@@ -449,6 +449,18 @@ class C07(FsScenario):
                 fm.apply(m, op)
             n0 = len(m.dirs_in("root"))
             case["faults"]["add_fail"] = {str(n0 + frng.randrange(0, 10)): frng.choice([_errno.ENOSPC, _errno.ENOSPC, _errno.EACCES])}
+            free = [n for n in ("a", "b", "c", "d", "e") if "root/" + n not in m.t]
+            if len(free) >= 3 and frng.random() < 0.4 and case["watch"].get("recursive", True):
+                # directed shape: a watched directory below a refused one leaves it unnoticed (no IN_MOVED_FROM is seen),
+                # then an ancestor of its old path is renamed
+                x, w, v = free[:3]
+                y, z = frng.choice("abc"), frng.choice("abc")
+                ops = [["makedirs", "root", [x, y, z]], ["drain"], ["rename", f"root/{x}/{y}/{z}", f"root/{w}"]] + ([["drain"]] if frng.random() < 0.5 else [])
+                ops += [["rename", f"root/{x}", f"root/{v}"], ["drain"]]
+                kept, _ = fm.revalidate(case["pre"], ops, paced=False, paced_out=False)
+                if len(kept) == len(ops):
+                    case["ops"] = ops
+                    case["faults"]["add_fail"] = {str(n0 + 1): frng.choice([_errno.ENOSPC, _errno.EACCES])}
         if rng.random() < 0.25:
             case["ops"].append(["drain"])
             case["ops"].append(["rmroot"])
